@@ -51,6 +51,7 @@ try:
         d = os.path.join('/verif/seeded', name)
         os.makedirs(d, exist_ok=True)
         # store the patch as it applies to the current HEAD
+        run('git add -A -N .')  # new files of the change are part of the patch
         rc, diff = run('git diff')
         open(os.path.join(d, 'patch.diff'), 'w').write(diff)
         shutil.copy(demo, os.path.join(d, os.path.basename(demo)))
